@@ -356,6 +356,202 @@ def corpus_models(data: pathlib.Path):
 
 
 FRAG_EXT = (".aird", ".capella", ".afm", ".airdfragment", ".capellafragment", ".melodymodeller", ".melodyfragment")
+SEM_EXT = (".capella", ".capellafragment", ".melodymodeller", ".melodyfragment")
+
+
+# ------------------------------------------------------------------ fragmented layouts (Capella's layout, built by harness/fragmenter.py)
+FRAG_DIRS = ["fragments", "fragments", "fragments/sub dir", "ü/ä b", "f%g", "deep/er/still", ""]
+FRAG_NAMES = ["{n}", "{n} {i}", "Frägment {i} — {n}", "x.y {n}", "{n} (copy) #{i}"]
+
+
+def type_prefixes(root):
+    """prefix -> number of elements whose xsi:type / xmi:type value or own tag uses it (raw scan)"""
+    cnt: dict[str, int] = {}
+    for el in root.iter():
+        if not isinstance(el.tag, str):
+            continue
+        ps = set()
+        if el.prefix:
+            ps.add(el.prefix)
+        for k in (f"{{{XSI}}}type", f"{{{XMI}}}type"):
+            v = el.get(k)
+            if v and ":" in v:
+                ps.add(v.split(":", 1)[0])
+        for p in ps:
+            cnt[p] = cnt.get(p, 0) + 1
+    return cnt
+
+
+def choose_picks(rng, capella_file: pathlib.Path, n_max: int):
+    """subtree roots to move into fragment files: architecture layers and packages (any *Architecture / *Pkg element that has
+    children), one of them -- when the model has one -- a subtree that holds EVERY use of its root's type prefix, so that after the
+    split the placeholder is the only user of that namespace in the parent file; nested picks allowed (outer first).
+    Returns (picks, info)"""
+    root = ET.parse(str(capella_file), ET.XMLParser(remove_blank_text=True, huge_tree=True)).getroot()
+    total = type_prefixes(root)
+    cands, sole = [], []
+    for el in root.iter():
+        if not isinstance(el.tag, str) or el.getparent() is None or not el.get("id") or not len(el):
+            continue
+        xt = el.get(f"{{{XSI}}}type") or ""
+        if ":" not in xt or not (xt.endswith("Architecture") or xt.endswith("Pkg")):
+            continue
+        if xt.split(":", 1)[0] not in root.nsmap:
+            continue
+        cands.append(el)
+        p = xt.split(":", 1)[0]
+        if type_prefixes(el).get(p, 0) == total.get(p, 0):
+            sole.append(el)
+    if not cands:
+        return [], {}
+    chosen = []
+    if sole:
+        chosen.append(rng.choice(sole))
+    k = rng.randrange(1, n_max + 1)
+    pool = list(cands)
+    rng.shuffle(pool)
+    for el in pool:
+        if len(chosen) >= k:
+            break
+        if any(el is c for c in chosen):
+            continue
+        chosen.append(el)
+    # a nested pick: a package inside an already chosen subtree
+    if rng.random() < 0.6:
+        inner = [d for c in chosen for d in c.iterdescendants() if any(d is x for x in cands) and not any(d is x for x in chosen)]
+        if inner:
+            chosen.append(rng.choice(inner))
+    chosen.sort(key=lambda e: len(list(e.iterancestors())))
+    picks = []
+    for i, el in enumerate(chosen):
+        d = "fragments" if i == 0 else rng.choice(FRAG_DIRS)          # the first one always in Capella's default sub-directory
+        n = (el.get("name") or el.get(f"{{{XSI}}}type").split(":")[-1]).replace("/", "_")[:40]
+        fname = rng.choice(FRAG_NAMES).format(n=n, i=i)
+        picks.append((el.get("id"), (d + "/" if d else "") + fname + ".capellafragment"))
+    nested = sum(1 for i, a in enumerate(chosen) for b in chosen[:i] if any(x is b for x in a.iterancestors()))
+    return picks, {"sole_user_of_namespace": int(bool(sole)), "nested": nested, "picks": len(picks)}
+
+
+def disk_files(d: pathlib.Path) -> list[str]:
+    return sorted(p.relative_to(d).as_posix() for p in d.rglob("*") if p.is_file())
+
+
+def referenced_files(modeldir: pathlib.Path, aird_name: str) -> tuple[set[str], list[str]]:
+    """the files a model consists of, by following (raw lxml + posixpath) what the files say: semanticResources / referencedAnalysis
+    of the visual files, placeholder hrefs of the semantic files, and the .afm next to the entry point.  Returns (paths relative to the
+    model directory, problems)"""
+    import posixpath
+    import urllib.parse
+    seen: set[str] = set()
+    problems: list[str] = []
+    todo = [aird_name]
+    afm = posixpath.splitext(aird_name)[0] + ".afm"
+    if (modeldir / afm).is_file():
+        seen.add(afm)
+    while todo:
+        f = todo.pop()
+        if f in seen:
+            continue
+        seen.add(f)
+        p = modeldir / f
+        if not p.is_file():
+            problems.append(f"{f}: referred to by the model but not on disk")
+            continue
+        try:
+            root = ET.parse(str(p), ET.XMLParser(huge_tree=True)).getroot()
+        except ET.XMLSyntaxError as e:
+            problems.append(f"{f}: does not parse: {e}")
+            continue
+        base = posixpath.dirname(f)
+        refs = []
+        for el in root.iter():
+            if not isinstance(el.tag, str):
+                continue
+            if el.tag == "semanticResources" and el.text and posixpath.splitext(f)[1] in (".aird", ".airdfragment"):
+                refs.append(el.text.strip())
+            h = el.get("href")
+            if h and (el.tag == "referencedAnalysis" or posixpath.splitext(f)[1] in SEM_EXT):
+                refs.append(h.split("#", 1)[0])
+        for r in refs:
+            r = urllib.parse.unquote(r)
+            if not r or "://" in r or r.startswith("platform:") or r.startswith("/"):
+                continue
+            if posixpath.splitext(r)[1] not in FRAG_EXT:
+                continue
+            t = posixpath.normpath(posixpath.join(base, r))
+            if t.startswith(".."):
+                continue                        # a library outside the model directory
+            todo.append(t)
+    return seen, problems
+
+
+def capella_file_oracle(path: pathlib.Path, rel: str, ref_ns: dict[str, str]) -> tuple[list[str], dict]:
+    """Capella-compatibility oracle on one written file (raw lxml; no capellambse code): the file parses; namespaces are declared on
+    the root only; every prefix used by an element name, an attribute name or an xsi:type / xmi:type value (containment placeholders
+    included) is declared there; a semantic file declares nothing else; every declared URI is the one the model's Capella-written main
+    file declares for that prefix (so all versioned namespaces of all files of a model agree); the 80-column rule of semantic files.
+    Calibrated on every file of the corpus as Capella wrote it (each satisfies it)."""
+    probs: list[str] = []
+    info = {"placeholders": 0, "placeholder_only_prefixes": []}
+    raw = path.read_bytes()
+    try:
+        root = ET.fromstring(raw, ET.XMLParser(huge_tree=True))
+    except ET.XMLSyntaxError as e:
+        return [f"{rel}: does not parse: {e}"], info
+    semantic = path.suffix in SEM_EXT
+    declared = {p: u for p, u in root.nsmap.items() if p}
+    used: dict[str, int] = {}
+    used_nonph: set[str] = set()
+    for el in root.iter():
+        if not isinstance(el.tag, str):
+            continue
+        if el is not root and el.nsmap != root.nsmap:
+            probs.append(f"{rel}: <{el.tag}> (id {el.get('id')}) carries a namespace declaration of its own")
+            break
+        ps = set()
+        if el.prefix:
+            ps.add(el.prefix)
+        for k, v in el.items():
+            if k.startswith("{"):
+                uri = k[1:].split("}", 1)[0]
+                ps.update([p for p, u in el.nsmap.items() if u == uri and p][:1])
+            if k in (f"{{{XSI}}}type", f"{{{XMI}}}type") and ":" in v:
+                ps.add(v.split(":", 1)[0])
+        is_ph = semantic and el.get("href") is not None and el is not root
+        info["placeholders"] += is_ph
+        for p in ps:
+            used[p] = used.get(p, 0) + 1
+            if not is_ph:
+                used_nonph.add(p)
+            if p not in declared:
+                probs.append(f"{rel}: prefix {p!r} used by <{el.tag.rsplit('}', 1)[-1]}"
+                             f"{' placeholder href=' + el.get('href')[:60] if is_ph else ''}> (xsi:type {el.get(f'{{{XSI}}}type')}) "
+                             f"is not declared on the root (declared: {sorted(declared)})")
+    info["placeholder_only_prefixes"] = sorted(set(used) - used_nonph)
+    probs = list(dict.fromkeys(probs))[:4]
+    if semantic:
+        extra = sorted(set(declared) - set(used) - {"xmi", "xsi"})
+        if extra:
+            probs.append(f"{rel}: declares namespaces nothing in the file uses: {extra}")
+        for must in ("xmi", "xsi"):
+            if must not in declared and used.get(must):
+                probs.append(f"{rel}: {must} not declared")
+    for p, u in declared.items():
+        if p in ref_ns and ref_ns[p] != u:
+            probs.append(f"{rel}: prefix {p!r} is bound to {u!r}, the model's main file (as written by Capella) binds it to {ref_ns[p]!r}")
+    import re as _re
+    vers = {}
+    for p, u in declared.items():
+        mm = _re.match(r"^http://www\.polarsys\.org/capella/(?:core|common)/.*/(\d+(?:\.\d+)*)$", u or "")
+        if mm:
+            vers.setdefault(mm.group(1), []).append(p)
+    if len(vers) > 1:
+        probs.append(f"{rel}: versioned namespaces disagree: { {k: v[:2] for k, v in vers.items()} }")
+    if semantic:
+        _, wp = scan_tags(raw.decode("utf-8"), 80)
+        if wp:
+            probs.append(f"{rel}: wrap rule: " + "; ".join(wp[:2]))
+    return probs, info
 
 
 def run(chk: lib.Check):
@@ -483,6 +679,146 @@ def run(chk: lib.Check):
     chk.coverage["corpus_fragments"] = frag_total
     lap('corpus_save')
     chk.coverage["corpus_fragments_byte_identical"] = frag_same
+
+    # ---------------- (2b) the same on FRAGMENTED models in Capella's layout
+    # The corpus has no fragmented model, so each layout is made from a corpus model by harness/fragmenter.py (subtrees of architecture
+    # layers / packages moved to .capellafragment files in sub-directories, names with spaces / non-ASCII / '%', nested fragments,
+    # .airdfragment chain).  The fragmenter's output is not in Capella's canonical formatting, so the byte baseline is the first save by
+    # the tree under check: that save must pass the Capella-compatibility oracle file by file, keep the set of files, keep the
+    # information of every file, and be a fixpoint of load -> save; the written bytes go to the writer model like the stock files.
+    import fragmenter
+    frag_stats = {"layouts": 0, "fragment_files": 0, "in_sub_directory": 0, "nested": 0, "layouts_with_placeholder_only_namespace": 0,
+                  "files_with_placeholder_only_namespace": 0, "placeholders": 0, "files_checked": 0, "files_byte_fixpoint": 0,
+                  "aird_style": {}, "models": {}, "roots_replaced_by_first_save": 0}
+    frag_fcases: list = []
+    # the oracle is calibrated on the files Capella wrote: each of them must satisfy it
+    for f in sorted(covered):
+        mains = sorted(f.parent.glob("*.capella"))
+        ref = {p: u for p, u in ET.parse(str(mains[0])).getroot().nsmap.items() if p} if len(mains) == 1 else {}
+        op, _ = capella_file_oracle(f, str(f.relative_to(data)), ref)
+        if op:
+            chk.broken.append(f"harness: the Capella-compatibility oracle rejects a corpus file as Capella wrote it: {op[0][:300]}")
+    small_models = [(a, kw) for a, kw in models if not kw and a.stat().st_size + sum(c.stat().st_size for c in a.parent.glob("*.capella")) < 1_500_000]
+    big_models = [(a, kw) for a, kw in models if not kw and (a, kw) not in small_models]
+    layouts = []
+    n_small, n_big = (7, 1) if quick else (60, 9)
+    rng.shuffle(big_models)
+    for i in range(n_small):
+        layouts.append(small_models[i % len(small_models)])
+    for i in range(n_big):
+        pref = [m_ for m_ in big_models if m_[0].parent.name == "5_2"] if quick else []
+        layouts.append((pref or big_models)[i % len(pref or big_models)])
+    for li, (aird, kw) in enumerate(layouts):
+        lseed = rng.getrandbits(48)
+        import random as _random
+        r2 = _random.Random(lseed)
+        mains = sorted(aird.parent.glob("*.capella"))
+        if len(mains) != 1:
+            continue
+        capella_name = mains[0].name
+        ref_ns = {p: u for p, u in ET.parse(str(mains[0])).getroot().nsmap.items() if p}
+        picks, pinfo = choose_picks(r2, mains[0], 3)
+        if not picks:
+            continue
+        style = "chain" if li % 3 != 2 else "direct"
+        mname = str(aird.parent.relative_to(data))
+        rep = {"model": mname, "picks": picks, "aird_style": style, "layout_seed": lseed}
+        with lib.scratch("c01f-") as tmp:
+            mdir = tmp / "m"
+            shutil.copytree(aird.parent, mdir, ignore=shutil.ignore_patterns("*.license"))
+            made = fragmenter.fragment_model(mdir, capella_name, aird.name, picks, aird_style=style)
+            if not made:
+                continue
+            files0 = disk_files(mdir)
+            # files below the model directory that no file of the model refers to (e.g. pvmt/expected-output/apply.capella): not the model's
+            unrelated = {f for f in files0 if pathlib.PurePosixPath(f).suffix in FRAG_EXT} - referenced_files(mdir, aird.name)[0]
+            pre = {}
+            for f in files0:
+                if pathlib.PurePosixPath(f).suffix in FRAG_EXT:
+                    pre[f] = ET.parse(str(mdir / f), xmlenc.parser()).getroot()
+            frag_stats["layouts"] += 1
+            frag_stats["fragment_files"] += len(made)
+            frag_stats["in_sub_directory"] += sum("/" in f for f in made)
+            frag_stats["nested"] += pinfo["nested"]
+            frag_stats["aird_style"][style] = frag_stats["aird_style"].get(style, 0) + 1
+            frag_stats["models"][mname] = frag_stats["models"].get(mname, 0) + 1
+            chk.note_case(("fragmented", mname, tuple(picks), style), nontrivial=True)
+            try:
+                m = capellambse.MelodyModel(str(mdir / aird.name))
+                roots0 = {k_: t_.root for k_, t_ in m._loader.trees.items()}
+                m.save()
+            except Exception as e:  # noqa: BLE001
+                chk.violation(f"frag-save:{type(e).__name__}:{mname}", f"load/save of the fragmented copy of {mname} raises {type(e).__name__}: {str(e)[:200]}", rep)
+                continue
+            frag_stats["roots_replaced_by_first_save"] += sum(1 for k_, t_ in m._loader.trees.items() if t_.root is not roots0[k_])
+            held = sorted(pathlib.PurePosixPath(*k_.parts[1:]).as_posix() for k_ in m._loader.trees if k_.parts[0] == "\0")
+            del m, roots0
+            probs = []
+            files1 = disk_files(mdir)
+            if files1 != files0:
+                probs.append(("files", f"save() changed the set of files on disk: new {sorted(set(files1) - set(files0))}, missing {sorted(set(files0) - set(files1))}"))
+            for h in held:
+                if h not in files1:
+                    probs.append(("files", f"the loader holds {h!r}, which is not on disk at that path"))
+            refd, rp = referenced_files(mdir, aird.name)
+            probs += [("files", x) for x in rp]
+            model_files = {f for f in files1 if pathlib.PurePosixPath(f).suffix in FRAG_EXT} - unrelated
+            if refd != model_files or set(held) != model_files:
+                probs.append(("files", f"model files on disk {sorted(model_files)}; reachable from the entry point by what the files say {sorted(refd)}; held by the loader {held}"))
+            bytes1 = {}
+            ph_only_files = 0
+            for f in sorted(model_files):
+                bytes1[f] = (mdir / f).read_bytes()
+                op, oinfo = capella_file_oracle(mdir / f, f, ref_ns)
+                probs += [("ns", x) for x in op]
+                frag_stats["placeholders"] += oinfo["placeholders"]
+                ph_only_files += bool(oinfo["placeholder_only_prefixes"])
+                frag_stats["files_checked"] += 1
+                if f in pre:
+                    try:
+                        post = ET.fromstring(bytes1[f], xmlenc.parser())
+                    except ET.XMLSyntaxError:
+                        continue
+                    d = xmlenc.doc_diff(pre[f], post, unordered_first=PRIO)
+                    if d:
+                        probs.append(("content", f"{f}: an untouched load/save changed the file's information: " + "; ".join(d[:2])))
+                    if len(bytes1[f]) <= (30_000 if quick else 60_000) and len(frag_fcases) < (14 if quick else 150):
+                        b, r, a = xmlenc.enc_doc(post)
+                        frag_fcases.append(([pathlib.PurePosixPath(f).suffix, b, r, a], bytes1[f]))
+            frag_stats["files_with_placeholder_only_namespace"] += ph_only_files
+            frag_stats["layouts_with_placeholder_only_namespace"] += bool(ph_only_files)
+            # fixpoint: load what was saved, save again
+            try:
+                m = capellambse.MelodyModel(str(mdir / aird.name))
+                m.save()
+                del m
+            except Exception as e:  # noqa: BLE001
+                probs.append(("fixpoint", f"load/save of the saved fragmented copy raises {type(e).__name__}: {str(e)[:200]}"))
+            files2 = disk_files(mdir)
+            if files2 != files1:
+                probs.append(("files", f"the second save() changed the set of files: new {sorted(set(files2) - set(files1))}, missing {sorted(set(files1) - set(files2))}"))
+            for f in sorted(model_files):
+                new = (mdir / f).read_bytes() if (mdir / f).is_file() else b""
+                if new == bytes1[f]:
+                    frag_stats["files_byte_fixpoint"] += 1
+                else:
+                    off = next((i for i, (x, y) in enumerate(zip(bytes1[f], new)) if x != y), min(len(bytes1[f]), len(new)))
+                    probs.append(("fixpoint", f"{f}: load/save of the saved file is not byte-identical, first difference at byte {off}: "
+                                              f"{bytes1[f][max(0, off - 40):off + 40]!r} -> {new[max(0, off - 40):off + 40]!r}"))
+            seen_cat = set()
+            for cat, what in probs:
+                if cat in seen_cat:
+                    continue
+                seen_cat.add(cat)
+                chk.violation(f"frag-{cat}:{mname}", f"fragmented copy of {mname} ({len(made)} fragment files, {style}): {what[:500]}",
+                              dict(rep, problems=[w for c_, w in probs if c_ == cat][:8]))
+    chk.correspond(IMP, "w_file", frag_fcases, tag=f"C01_fragfile_{RUN}", shard=1,
+                   describe=lambda i: {"fragment": frag_fcases[i][0][0], "written": frag_fcases[i][1].decode("utf-8", "replace")[:1500]})
+    frag_stats["files_to_writer_model"] = len(frag_fcases)
+    chk.coverage["fragmented_layouts"] = frag_stats
+    if frag_stats["layouts"] == 0 or frag_stats["in_sub_directory"] == 0 or frag_stats["layouts_with_placeholder_only_namespace"] == 0:
+        chk.broken.append(f"harness: the fragmented stream did not reach its input class: {frag_stats}")
+    lap('fragmented_layouts')
 
     # corpus statistics for the wrap argument + model correspondence on the corpus trees
     fcases, scases, acases = [], [], []
